@@ -14,7 +14,8 @@ class Layer:
     `execute(case)` returns a vf.common.Outcome.
     """
 
-    def __init__(self, name, *, execute, strategy=None, cases=None, budget=None, setup=None):
+    def __init__(self, name, *, execute, strategy=None, cases=None, budget=None, setup=None, stall_is_violation=False):
+        self.stall_is_violation = stall_is_violation  # non-termination is part of the property (C07, C08, C12, C13, C15)
         assert (strategy is None) != (cases is None)
         self.name = name
         self.kind = "hyp" if strategy is not None else "enum"
